@@ -37,3 +37,7 @@ PROBES = list(PROBES) + ["output-name-held-a-longer-file", "integer-arguments-as
 PROBES = list(PROBES) + ["second-mask-object-derived:evolve", "second-mask-object-derived:copy", "second-mask-object-derived:ctor", "second-mask-object-derived:deepcopy"]
 RULE = RULE + (" Round 9: 30% of mask histories derive a second RFIMask in mid-history (attrs.evolve at another threshold, copy.copy, copy.deepcopy, the constructor given the first "
                "one's arrays), apply 1-2 operations to it, and go on with the original; each object keeps its own set model and neither may change through the other.")
+
+# dimensions added in seeded round 10
+PROBES = list(PROBES) + ["ranges-given-as:tuple", "ranges-given-as:ndarray", "ranges-given-as:zip", "ranges-given-as:generator", "ranges-given-as:map"]
+RULE = RULE + " Round 10: the frequency ranges are handed over as a list, a tuple, an (n,2) array, or a one-shot iterable (zip / generator / map); a range end on a channel centre keeps the list form (margin rule: float64 array elements and Python floats are compared at different precisions)."
